@@ -103,12 +103,38 @@ fn files_line(dir: &std::path::Path) -> String {
 	format!("files {}", if v.is_empty() { "-".to_string() } else { v.join(",") })
 }
 
+extern "C" { fn syscall(num: std::os::raw::c_long, ...) -> std::os::raw::c_long; }
+/// drop CAP_DAC_OVERRIDE / CAP_DAC_READ_SEARCH of the CALLING THREAD (Linux capabilities are per thread), so that the
+/// permission bits of a directory bite although the harness runs as root (x86_64 syscall numbers capget=125, capset=126)
+fn drop_dac_caps() -> bool {
+	#[repr(C)] struct Hdr { version: u32, pid: i32 }
+	#[repr(C)] #[derive(Clone, Copy)] struct Data { effective: u32, permitted: u32, inheritable: u32 }
+	if !cfg!(all(target_os = "linux", target_arch = "x86_64")) { return false; }
+	let mut hdr = Hdr { version: 0x20080522, pid: 0 };
+	let mut data = [Data { effective: 0, permitted: 0, inheritable: 0 }; 2];
+	unsafe {
+		if syscall(125, &mut hdr as *mut Hdr, data.as_mut_ptr()) != 0 { return false; }
+		data[0].effective &= !((1u32 << 1) | (1u32 << 2));
+		syscall(126, &mut hdr as *mut Hdr, data.as_mut_ptr()) == 0
+	}
+}
+fn set_mode(p: &std::path::Path, mode: u32) { use std::os::unix::fs::PermissionsExt; let _ = std::fs::set_permissions(p, std::fs::Permissions::from_mode(mode)); }
+/// does the permission trick work here? (a thread without the DAC capabilities cannot create a file in a r-x directory)
+fn perm_faults_available(scratch: &std::path::Path) -> bool {
+	let d = scratch.join("perm-probe"); let _ = std::fs::create_dir_all(&d); set_mode(&d, 0o500);
+	let r = std::thread::scope(|sc| sc.spawn(|| drop_dac_caps() && std::fs::File::create(d.join("x")).is_err()).join().unwrap_or(false));
+	set_mode(&d, 0o755); let _ = std::fs::remove_dir_all(&d); r
+}
+
 fn kv_model(args: &Args) {
 	let mut rec = Rec::new(&args.out, "c19kv");
 	let mut rng = Rng::new(args.seed);
 	let scratch = args.out.join("scratch-kv");
 	let _ = std::fs::remove_dir_all(&scratch);
 	let rt = tokio::runtime::Builder::new_current_thread().build().expect("tokio runtime");
+	let _ = std::fs::create_dir_all(&scratch);
+	let perm_ok = perm_faults_available(&scratch);
+	rec.notes.insert("permission-faults".into(), format!("available={}", perm_ok));
 	let long_n: String = std::iter::repeat('n').take(120).collect();
 	let long_k: String = std::iter::repeat('k').take(120).collect();
 	let too_long: String = std::iter::repeat('k').take(121).collect();
@@ -192,6 +218,8 @@ fn kv_model(args: &Args) {
 				let mut sched = String::new();
 				let mut oks: Vec<usize> = vec![];
 				let mut pending: Vec<usize> = vec![];
+				// the most recent operation that took EFFECT on the key (applied and Ok, or failed after its rename / unlink)
+				let mut last_effect: Option<usize> = None;
 				// events: issues in id order, each body some time after its issue; mostly all issues first (then the bodies
 				// newest-first or permuted), sometimes a body completes BEFORE later operations are issued (then the lock entry
 				// of the path may have been dropped by clean_locks in between, or must NOT have been: in-flight references)
@@ -199,6 +227,40 @@ fn kv_model(args: &Args) {
 				let newest_first = rng.chance(1, 2);
 				let mut interleaved = false;
 				while futs.len() < m || !pending.is_empty() {
+					// a SYNC call (issue + body at once, newest version) on a thread without the DAC capabilities while the parent
+					// directory is r-x (tmp create of a write fails BEFORE the lock: kind e; the unlink of a remove fails: kind c) or
+					// -wx (the directory fsync AFTER the rename / unlink fails: kind d — Err although the effect is on disk)
+					if perm_ok && futs.len() < m && rng.chance(1, 4) {
+						let id = futs.len();
+						let is_w = rng.chance(2, 3);
+						let kind = if rng.chance(1, 2) { 'd' } else if is_w { 'e' } else { 'c' };
+						let vl = 1 + rng.below(12) as usize; let v = rng.bytes(vl);
+						let lazy = rng.chance(1, 2);
+						let parent = dest.parent().expect("parent").to_path_buf();
+						let _ = std::fs::create_dir_all(&parent);
+						let present = dest.is_file();
+						set_mode(&parent, if kind == 'd' { 0o300 } else { 0o500 });
+						let r = std::thread::scope(|sc| sc.spawn(|| { drop_dac_caps(); guarded(AssertUnwindSafe(|| match &store {
+							StoreE::V1(st) => if is_w { KVStoreSync::write(st, &p, &s, &k, v.clone()) } else { KVStoreSync::remove(st, &p, &s, &k, lazy) },
+							StoreE::V2(st) => if is_w { KVStoreSync::write(st, &p, &s, &k, v.clone()) } else { KVStoreSync::remove(st, &p, &s, &k, lazy) } })) }).join().expect("fault thread"));
+						set_mode(&parent, 0o755);
+						let ans = match r { Ok(Ok(())) => "ok".to_string(), Ok(Err(_)) => "err io".to_string(), Err(pm) => canon_err(Err(pm)) };
+						// oracle (independent of the Lean model): what must fail, and whether it nevertheless took effect
+						let (expect, effect) = match (kind, is_w) {
+							('e', _) => ("err io", false),
+							('c', _) => if present { ("err io", false) } else { ("ok", true) },
+							(_, true) => ("err io", true),
+							(_, false) => if present && !lazy { ("err io", true) } else { ("ok", true) },
+						};
+						let line = if is_w { format!("sk {} w {} {} {} {}", kind, hexs(&p), hexs(&s), hexs(&k), hex(&v)) } else { format!("sk {} d {} {} {} {}", kind, hexs(&p), hexs(&s), hexs(&k), lazy as u8) };
+						sched.push_str(&format!("sync#{}={}[{}]->{} ", id, if is_w { format!("write({})", hex(&v)) } else { "remove".to_string() }, match kind { 'e' => "parent r-x: tmp create fails", 'c' => "parent r-x: unlink fails", _ => "parent -wx: dir fsync fails" }, ans));
+						if ans != expect { rec.oracle_fail(format!("{} sync call under I/O fault: seq {} key {}/{}/{} schedule `{}`: op {} answered `{}` expected `{}`", tag, seq, p, s, trunc_s(&k), sched.trim(), id, ans, expect)); }
+						futs.push(None); bodies.push(if is_w { Some(v) } else { None });
+						if ans == "ok" { oks.push(id); }
+						if effect { last_effect = Some(id); }
+						rec.case(&line, &ans, &format!("{}:fault-sync:{}:{}:{}", tag, kind, if is_w { "write" } else { "remove" }, ans.replace(' ', "-")), true);
+						continue;
+					}
 					if futs.len() < m && (pending.is_empty() || !interleave || rng.chance(1, 2)) {
 						let id = futs.len();
 						let is_w = rng.chance(3, 4);
@@ -228,17 +290,17 @@ fn kv_model(args: &Args) {
 					let expect = if !stale && fault && bodies[id].is_some() { "err io" } else { "ok" };
 					sched.push_str(&format!("exec#{}{}->{} ", id, if fault { "[rename blocked]" } else { "" }, ans));
 					if ans != expect { rec.oracle_fail(format!("{} async under I/O fault: seq {} key {}/{}/{} schedule `{}`: completion of op {} answered `{}` expected `{}`", tag, seq, p, s, trunc_s(&k), sched.trim(), id, ans, expect)); }
-					if ans == "ok" { oks.push(id); }
+					if ans == "ok" { oks.push(id); if !stale { last_effect = Some(id); } }
 					rec.case(&format!("axf {} {}", id, fault as u8), &ans, &format!("{}:fault-complete:{}:{}{}{}", tag, if fault { "blocked" } else { "free" }, ans.replace(' ', "-"), if stale { ":stale" } else { "" }, if interleaved { ":issue-exec-interleaved" } else { "" }), true);
 				}
 				// oracle (independent of the Lean model): the LAST ISSUED operation among those that RETURNED Ok is what read
 				// and list show; if none returned Ok nothing changed
 				let key = (p.clone(), s.clone(), k.clone());
-				if let Some(mx) = oks.iter().max() { match &bodies[*mx] { Some(v) => { reference.insert(key.clone(), v.clone()); }, None => { reference.remove(&key); } } }
+				if let Some(mx) = last_effect.as_ref() { match &bodies[*mx] { Some(v) => { reference.insert(key.clone(), v.clone()); }, None => { reference.remove(&key); } } }
 				let r = guarded(AssertUnwindSafe(|| store.sync().read(&p, &s, &k)));
 				let ans = match r { Ok(Ok(v)) => format!("val {}", hex(&v)), Ok(Err(e)) => canon_err(Ok(e)), Err(pm) => canon_err(Err(pm)) };
 				let expect = match reference.get(&key) { Some(v) => format!("val {}", hex(v)), None => "err NotFound".into() };
-				if ans != expect { rec.oracle_fail(format!("{} async under I/O fault: seq {} key {}/{}/{} schedule `{}`: read answers `{}` but the last issued operation that returned Ok ({}) says `{}`", tag, seq, p, s, trunc_s(&k), sched.trim(), trunc_s(&ans), oks.iter().max().map(|x| format!("op {}", x)).unwrap_or("none: contents before the block".into()), trunc_s(&expect))); }
+				if ans != expect { rec.oracle_fail(format!("{} async under I/O fault: seq {} key {}/{}/{} schedule `{}`: read answers `{}` but the last issued operation that returned Ok — or failed only after its rename / unlink — ({}) says `{}`", tag, seq, p, s, trunc_s(&k), sched.trim(), trunc_s(&ans), last_effect.map(|x| format!("op {}", x)).unwrap_or("none: contents before the block".into()), trunc_s(&expect))); }
 				rec.case(&format!("r {} {} {}", hexs(&p), hexs(&s), hexs(&k)), &ans, &format!("{}:fault-final-read:{}", tag, ans.split_whitespace().take(if ans.starts_with("err") { 2 } else { 1 }).collect::<Vec<_>>().join("-")), true);
 				if !poisoned.contains(&(p.clone(), s.clone())) {
 					let canon = |mut l: Vec<String>| { let mut h: Vec<String> = l.drain(..).map(|x| hexs(&x)).collect(); h.sort(); format!("names {}", if h.is_empty() { "-".to_string() } else { h.join(",") }) };
@@ -352,6 +414,63 @@ fn kv_model(args: &Args) {
 			}
 			let cls = format!("{}:{}:{}", tag, class, ans.split_whitespace().take(if ans.starts_with("err") { 2 } else { 1 }).collect::<Vec<_>>().join("-"));
 			rec.case(&op, &ans, &cls, true);
+		}
+		// ---- v2 list_paginated probe (harness-only oracle; the writes are ordinary `w` cases, so the model stays in step):
+		// 120 keys in one namespace (PAGE_SIZE = 50 => 3 pages); between the pages an already listed key is overwritten, a
+		// not yet listed one is overwritten (v2 preserves the mtime of an update), one new key is added and one listed key
+		// removed. Oracle: no page longer than 50, no key twice, every key that existed throughout exactly once, only
+		// keys that existed at some point; without concurrent writes the pages concatenate to exactly `list`.
+		if let (true, StoreE::V2(st2)) = (seq % 100 == 1, &store) {
+			use lightning::util::persist::PaginatedKVStoreSync;
+			let (pn, sn) = ("nPage".to_string(), "".to_string());
+			let mut put = |rec: &mut Rec, reference: &mut BTreeMap<(String, String, String), Vec<u8>>, k: &str, v: Vec<u8>| {
+				let r = guarded(AssertUnwindSafe(|| KVStoreSync::write(st2, &pn, &sn, k, v.clone())));
+				let ans = match r { Ok(Ok(())) => "ok".to_string(), Ok(Err(e)) => canon_err(Ok(e)), Err(pm) => canon_err(Err(pm)) };
+				reference.insert((pn.clone(), sn.clone(), k.to_string()), v.clone());
+				if ans != "ok" { rec.oracle_fail(format!("v2 store is not a map: seq {} paginated probe write {} answered `{}`", seq, k, ans)); }
+				rec.case(&format!("w {} {} {} {}", hexs(&pn), hexs(&sn), hexs(k), hex(&v)), &ans, "v2:write:ok", true);
+			};
+			for i in 0..120 { put(&mut rec, &mut reference, &format!("kp{:03}", i), vec![i as u8]); }
+			for concurrent in [false, true] {
+				let before: HashSet<String> = reference.keys().filter(|x| x.0 == pn).map(|x| x.2.clone()).collect();
+				let mut ever = before.clone(); let mut removed: HashSet<String> = HashSet::new();
+				let mut pages: Vec<Vec<String>> = vec![]; let mut token = None; let mut bad = None;
+				for pg in 0..10 {
+					match guarded(AssertUnwindSafe(|| PaginatedKVStoreSync::list_paginated(st2, &pn, &sn, token.clone()))) {
+						Ok(Ok(resp)) => { pages.push(resp.keys.clone()); token = resp.next_page_token; },
+						Ok(Err(e)) => { bad = Some(format!("page {} failed: {}", pg, e)); break; },
+						Err(pm) => { bad = Some(format!("page {} panicked: {}", pg, pm)); break; },
+					}
+					if token.is_none() { break; }
+					if concurrent && pg == 0 {
+						let listed = pages[0][0].clone(); let listed2 = pages[0][1].clone();
+						let unlisted = before.iter().filter(|k| !pages[0].contains(k)).min().cloned().unwrap_or_default();
+						put(&mut rec, &mut reference, &listed, vec![200]);
+						if !unlisted.is_empty() { put(&mut rec, &mut reference, &unlisted, vec![201]); }
+						put(&mut rec, &mut reference, "kpNEW", vec![202]); ever.insert("kpNEW".into());
+						let r = guarded(AssertUnwindSafe(|| KVStoreSync::remove(st2, &pn, &sn, &listed2, false)));
+						let ans = match r { Ok(Ok(())) => "ok".to_string(), Ok(Err(e)) => canon_err(Ok(e)), Err(pm) => canon_err(Err(pm)) };
+						reference.remove(&(pn.clone(), sn.clone(), listed2.clone())); removed.insert(listed2.clone());
+						rec.case(&format!("d {} {} {} 0", hexs(&pn), hexs(&sn), hexs(&listed2)), &ans, "v2:remove:ok", true);
+					}
+				}
+				let all: Vec<String> = pages.iter().flatten().cloned().collect();
+				let set: HashSet<String> = all.iter().cloned().collect();
+				let what = if concurrent { "with writes between the pages" } else { "quiescent" };
+				if let Some(b) = bad { rec.oracle_fail(format!("v2 list_paginated ({}): seq {} {}", what, seq, b)); }
+				if token.is_some() { rec.oracle_fail(format!("v2 list_paginated ({}): seq {} still has a next page after 10 pages", what, seq)); }
+				if pages.iter().any(|p| p.len() > 50) { rec.oracle_fail(format!("v2 list_paginated ({}): seq {} a page has more than 50 keys", what, seq)); }
+				if set.len() != all.len() { let mut seen = HashSet::new(); let dup: Vec<&String> = all.iter().filter(|k| !seen.insert((*k).clone())).take(3).collect(); rec.oracle_fail(format!("v2 list_paginated ({}): seq {} keys listed twice across pages: {:?}", what, seq, dup)); }
+				let missing: Vec<&String> = before.iter().filter(|k| !removed.contains(*k) && !set.contains(*k)).take(3).collect();
+				if !missing.is_empty() { rec.oracle_fail(format!("v2 list_paginated ({}): seq {} keys that existed throughout are on no page: {:?} (pages of {:?} keys)", what, seq, missing, pages.iter().map(|p| p.len()).collect::<Vec<_>>())); }
+				let alien: Vec<&String> = set.iter().filter(|k| !ever.contains(*k)).take(3).collect();
+				if !alien.is_empty() { rec.oracle_fail(format!("v2 list_paginated ({}): seq {} keys that never existed: {:?}", what, seq, alien)); }
+				if !concurrent {
+					let mut l = KVStoreSync::list(st2, &pn, &sn).unwrap_or_default(); l.sort(); let mut a = all.clone(); a.sort();
+					if l != a { rec.oracle_fail(format!("v2 list_paginated (quiescent): seq {} pages concatenate to {} keys but list returns {}", seq, a.len(), l.len())); }
+				}
+				*rec.classes.entry(format!("v2:list-paginated:{}:{}-pages", if concurrent { "concurrent-writes" } else { "quiescent" }, pages.len())).or_insert(0) += 1;
+			}
 		}
 		drop(store);
 		let _ = std::fs::remove_dir_all(&dir);
